@@ -117,6 +117,14 @@ def goOk (g : GoSite) : Bool :=
   (g.deferDone && g.waitLine > g.line && !g.touchedBefore && (!g.sharedWrites.isEmpty || g.slotParam)) ||
   (g.callee == "openBrowser" && g.fn == "serveWebInterface")
 
+/-- every nesting edge (outer, inner) goes from a lower to a strictly higher rank: the nesting
+relation is acyclic and `rank` is a lock hierarchy -/
+def lockOrderOk (rank : List (Nat × String × Nat)) (edges : List (Nat × Nat)) : Bool :=
+  edges.all fun e =>
+    match rank.find? (·.1 == e.1), rank.find? (·.1 == e.2) with
+    | some a, some b => a.2.2 < b.2.2
+    | _, _ => false
+
 def tempExcl (t : TempFileFacts) : Bool :=
   t.oExcl != 0 && t.oCreate != 0 &&
   t.flags &&& t.oExcl == t.oExcl && t.flags &&& t.oCreate == t.oCreate && t.retriesOnExist
